@@ -54,6 +54,10 @@ def gen_cases(tier, seed):
             c["a"] = dict(c["a"], vclass="huge")
         if c["op"] in ("sigmoid", "tanh") and c["n"] % 3 == 2:
             c["a"] = dict(c["a"], vclass="tails")
+        if c["op"] in ("bce_loss", "bce_with_logits", "mse_loss") and c["n"] % 4 == 1:
+            # hard 0/1 labels in small integer / bool arrays: the loss keeps the floating dtype of the prediction
+            # (8- and 16-bit labels only: NumPy - like PyTorch - keeps float32 for those; what float32 x int64 / bool gives is not asserted)
+            c["int_operands"] = {"1": ["uint8", "int8", "int16", "uint16"][(c["n"] // 4) % 4]}
         if c["op"] == "batch_norm" and c["n"] % 3 == 0:
             c["a"] = dict(c["a"], vclass="offset")          # |mean| >> std: float32 must still agree with float64 to single precision
         cases.append(c)
